@@ -59,6 +59,9 @@ structure CollCase where
 `FieldVector<int,3>` object reduced entry by entry with a functor on `int` -/
 def isVForm (form : String) : Bool := form == "vrv" || form == "viio" || form == "viip"
 def isKForm (form : String) : Bool := form == "krv" || form == "kiio" || form == "kiip"
+/-- R4: `std::array<T,3>` / `DynamicVector<T>` handed to the MPIData based reductions -/
+def isAForm (form : String) : Bool := form == "arv" || form == "aiio" || form == "aiip"
+def isDForm (form : String) : Bool := form == "drv" || form == "diio" || form == "diip"
 
 /-- the functor of a reduction at cell level (for the `k…` forms: the functor on the entries, cell by cell) -/
 def caseOp (ty fn form : String) : Option (List Int → List Int → List Int) :=
@@ -110,6 +113,8 @@ def unsupported (k : CollCase) (seq : Bool) (inSize outSize : Nat) : Bool :=
     else if form == "sc" then !(k.n == 1 && isNamed k.fn)
     else if form == "ar" then !(isNamed k.fn)
     else if form == "ip" || form == "io" then false
+    else if isAForm form || isDForm form then
+      !vec || inN != k.n || outN != k.n || (isAForm form && k.n != 3) || ((form == "arv" || form == "drv") && seq)
     else if form == "rv" || form == "iio" || form == "iip" then
       (!vec && !isTrueScalar k.ty) || (!vec && k.n != 1) || inN != k.n || outN != k.n || (form == "rv" && seq)
     else true
@@ -150,8 +155,8 @@ def seqOne (k : CollCase) (inp out : List Int) (len displ : Nat) : List Int :=
   | "red", "sc" => Seq.assignElem e (Seq.reduceScalar inp) 0 out 0
   | "red", "ar" | "red", "ip" => Seq.copyLoop e (Seq.reduceInplace inp k.n) 0 out 0 k.n
   | "red", "io" => Seq.allreduceInOut e inp out k.n
-  | "red", "iio" | "red", "viio" | "red", "kiio" => Seq.iallreduceInOut inp out
-  | "red", "iip" | "red", "viip" | "red", "kiip" => Seq.iallreduceInplace inp
+  | "red", "iio" | "red", "viio" | "red", "kiio" | "red", "aiio" | "red", "diio" => Seq.iallreduceInOut inp out
+  | "red", "iip" | "red", "viip" | "red", "kiip" | "red", "aiip" | "red", "diip" => Seq.iallreduceInplace inp
   | "bcast", "ptr" => Seq.broadcast out k.n 0
   | "bcast", _ => Seq.ibroadcast out 0
   | "gather", "ptr" => Seq.gather e inp out k.n 0
